@@ -297,9 +297,20 @@ def compare_sequence(cases, epg, tol1=1e-8, tol2=1e-7):
                     rect = (V1, V2, np.asarray(jr).reshape(-1), np.asarray(hr).reshape(len(V1), len(V2)))
                 case["rect"] = rect
         except Exception as exc:
+            # a decay time that evaluates (own evaluation of the expressions) to a negative number must be rejected
+            try:
+                neg = any(np.real(c.get("tau", 0)) < 0 for c in spec_lines_seq(case)[1])
+            except Exception:
+                neg = False
+            if neg and isinstance(exc, ValueError) and "negative time" in str(exc):
+                expect.append(("rejected",))
+                continue
             expect.append(("error", repr(exc)))
             continue
         ls, concrete = spec_lines_seq(case)
+        if any(np.real(c.get("tau", 0)) < 0 for c in concrete):
+            expect.append(("error", "a negative decay time was accepted by the sequence"))
+            continue
         lines += ls
         # hand-built concrete operators with the evaluated arguments
         try:
@@ -312,6 +323,8 @@ def compare_sequence(cases, epg, tol1=1e-8, tol2=1e-7):
     out = lib.run_driver(lines) if lines else []
     pos, dis, checked = 0, [], 0
     for ci, (case, ex) in enumerate(zip(cases, expect)):
+        if ex[0] == "rejected":
+            continue
         if ex[0] == "error":
             dis.append({"case": ci, "kind": "sequence-raised", "error": ex[1], "input": case})
             continue
